@@ -20,8 +20,8 @@ def jstate (out : List Ev) : JState := out.foldr (fun e s => judgeStep s e) {}
 
 @[simp] theorem jstate_cons (e : Ev) (out : List Ev) : jstate (e :: out) = judgeStep (jstate out) e := rfl
 
-theorem judgeEv_events (w : World) : judgeEv (events w) = (jstate w.out).bad.reverse := by
-  unfold judgeEv events jstate
+theorem judgeCore_events (w : World) : judgeCore (events w) = (jstate w.out).bad.reverse := by
+  unfold judgeCore events jstate
   rw [List.foldl_reverse]
 
 /-- the simulation relation: the oracle, having read the events so far, has raised no violation and its
